@@ -21,7 +21,7 @@ PLAN = {'quick': {'gen': 8}, 'thorough': {'gen': 16, 'tests': 1, 'docs': 1}}
 REQUIRED_BUCKETS = ['pad:2d', 'pad:cube', 'pad:nonsquare-cube', 'pad:grow', 'pad:shrink', 'pad:mixed',
                     'pad:parity-change', 'subarray', 'window', 'boundary', 'slice_offset', 'centroid', 'rebin',
                     'rebin:cube', 'rebin:small-int', 'mesh', 'shape:circle', 'shape:hexagon', 'shape:rectangle', 'shape:spider', 'shape:sequence', 'shape:binary',
-                    'shape:antialias', 'hexseg', 'hexseg:gap0', 'hexseg:drop', 'hexseg:drop-repeated', 'rescale:origin']
+                    'shape:antialias', 'hexseg', 'hexseg:gap0', 'hexseg:drop', 'hexseg:drop-repeated', 'rescale:origin', 'dtype:reduced-precision']
 REQUIRED_ANCHORS = ['probe:pad', 'anchor:mesh', 'anchor:hex_to_rc', 'anchor:slice_offset', 'anchor:boundary_slice']
 REQUIRED_ORACLES = ['pad=index', 'pad-crop=id', 'subarray=index', 'window=index', 'boundary=set',
                     'slice_offset=render', 'centroid', 'rebin=blocks', 'mesh', 'shape:range', 'shape:binary',
@@ -350,6 +350,38 @@ def workload(ctx, lentil):
         ctx.close('centroid', np.array([cr2, cc2]), np.array(ref), 1e-12, 'centroid|scale-invariant',
                   'the centroid depends on the absolute brightness of the image', dict(desc, factor=cfac), scale=max(s))
 
+    # ---- the TYPE in which frames and angles arrive: half / single precision frames (centroid, rebin), angles as NumPy integers
+    for i in range(max(6, n // 30)):
+        m_ = int(rng.integers(120, 320))
+        disc = lentil.circle((m_, m_), m_ / 3.0, shift=(int(rng.integers(-9, 10)), int(rng.integers(-9, 10))), antialias=False)
+        ctx.case({'op': 'reduced-precision', 'n': m_}, ['dtype:reduced-precision'])
+        ref_c = np.array(U.centroid(disc.astype(float)))
+        for dt in (np.float16, np.float32):
+            with np.errstate(all='ignore'):
+                got_c = np.array(U.centroid(disc.astype(dt)), float)          # 0/1 values: exact in every type
+            ctx.close('centroid', got_c, ref_c, 1.0, f'centroid|{np.dtype(dt).name}', 'the centroid of a 0/1 frame depends on the precision '
+                      'the frame is held in', {'n': m_, 'dtype': np.dtype(dt).name, 'got': got_c.tolist(), 'want': ref_c.tolist()}, scale=1e-9 * m_)
+        f16 = np.full((64, 64), 100, np.float16)
+        with np.errstate(all='ignore'):
+            rb = np.asarray(U.rebin(f16, 32), float)
+        ctx.check(bool(np.all(rb == 102400.0)), 'rebin=blocks', 'rebin|float16', 'rebin of a half-precision frame overflows / loses the block sums',
+                  {'got': rb.ravel()[:2].tolist()})
+        ang = int(rng.integers(5, 85))
+        refr = lentil.rectangle((96, 96), 70, 9, angle=float(ang))
+        refs = lentil.spider((96, 96), 5, angle=float(ang))
+        for at in (np.int8, np.uint8, np.int16, np.float32):
+            gr = lentil.rectangle((96, 96), 70, 9, angle=at(ang))
+            gs = lentil.spider((96, 96), 5, angle=at(ang))
+            ctx.check(float(np.abs(gr - refr).max()) <= 1e-9 and float(np.abs(gs - refs).max()) <= 1e-9, 'shape:range', f'shape|angle-type|{np.dtype(at).name}',
+                      'a rectangle / spider drawn at an angle given as a NumPy integer (or single-precision float) differs from the one drawn at '
+                      'the same angle given as a Python number', {'angle': ang, 'type': np.dtype(at).name,
+                                                                  'rect': float(np.abs(gr - refr).max()), 'spider': float(np.abs(gs - refs).max())})
+        # window of a cube (frames first, as pad and rebin have it) selected by an explicit slice == selected by the centred shape
+        cube = rng.normal(size=(3, 8, 10))
+        wa = U.window(cube, shape=(4, 4))
+        wb = U.window(cube, shape=(4, 4), slice=(2, 6, 3, 7))
+        ctx.check(np.shape(wb) == np.shape(wa) and np.array_equal(wa, wb), 'pad=index-model', 'window|cube|slice',
+                  'window(cube, slice=...) does not crop the rows and columns of every frame', {'shapes': [list(np.shape(wa)), list(np.shape(wb))]})
     # ---- rescale: what sits on the origin sample stays on the origin sample (odd and even sizes, in and out) ------
     for i in range(max(6, n // 30)):
         m_ = int(rng.integers(21, 70))
@@ -433,7 +465,9 @@ def workload(ctx, lentil):
         tol = 1e-12
         # half-turn about the origin sample
         rot, valid = _origin_flip(m0)
-        cmp = valid & (np.ones(s, bool) if antialias else (safe0 & _origin_flip(safe0.astype(float))[0].astype(bool)))
+        # (every pixel, binary shapes included: a half-turn maps (r, c) to (-r, -c) exactly, so an implementation that treats
+        # opposite sides alike gives bit-identical values - no tie is possible here, unlike for mirrors and shifts)
+        cmp = valid
         ctx.check(bool(np.all(np.abs(rot - m0)[cmp] <= tol)), 'shape:halfturn', f'shape|halfturn|{kind}',
                   'shape is not unchanged by a half-turn about the origin sample', desc)
         # mirror symmetry when not rotated
